@@ -217,7 +217,7 @@ class C20(Prop):
                 own_errors += 1           # derive_ex answered with a message of its own: outside this property
                 continue
             head = ('#[::derive_ex::derive_ex(%s)]\n' % r.attr) if r.mode == 'A' else '#[derive(::derive_ex::Ex)]\n'
-            mods.append(l2.Module(r.cid, head + r.item + '\npub fn run() {}', r))
+            mods.append(l2.Module(r.cid, l2.decl(head, r.item, r.cid) + '\npub fn run() {}', r))
         nb = max(1, min(R.NPROC, len(mods) // 40 + 1))
         batches = [('c20_%d' % k, mods[k::nb]) for k in range(nb)]
         l2.compile_parallel(batches, prelude=PRELUDE, check_only=True, crate_attrs=CRATE_ATTRS)
